@@ -596,6 +596,68 @@ func t3SpellingsScenario() instance {
 
 // ---- generic batch issuer ----
 
+// batchRefusedScenario: two batches evaluated at once, each holding a request that is refused
+// (a type-1 blinded element that is not a curve point) in front of an honest type-2 request.
+func batchRefusedScenario() instance {
+	kb := px.OPRFKeyBytes(oprf.SuiteP384, 0)
+	ref1 := px.NewW1FromBytes(kb)
+	ref2 := px.NewW2(0)
+	chal := fill("chal", 32)
+	type pair struct {
+		s2   type2.BasicPublicTokenRequestState
+		wire []byte
+	}
+	mk := func(i int) pair {
+		s1, err := ref1.Create(chal, fill(fmt.Sprintf("br%d-1", i), 32), nil)
+		must(err)
+		bad := s1.Request()
+		bad.BlindedReq = append([]byte{0x02}, bytes.Repeat([]byte{0xff}, 48)...)
+		s2, err := ref2.Create(chal, fill(fmt.Sprintf("br%d-2", i), 32), nil, nil)
+		must(err)
+		br, err := batched.NewBasicClient().CreateTokenRequest([]tokens.TokenRequestWithDetails{bad, s2.Request()})
+		must(err)
+		return pair{s2, append([]byte{}, br.Marshal()...)}
+	}
+	p0, p1 := mk(0), mk(1)
+	bi := batched.NewBasicBatchedIssuer(issuer1{type1.NewBasicPrivateIssuer(px.OPRFKeyFromBytes(oprf.SuiteP384, kb))}, issuer2{type2.NewBasicPublicIssuer(px.FreshRSA(0))})
+	var r0, r1 []byte
+	var e0, e1 error
+	in := instance{}
+	q0, q1 := new(batched.BatchedTokenRequest), new(batched.BatchedTokenRequest)
+	q0.Unmarshal(p0.wire)
+	q1.Unmarshal(p1.wire)
+	in.bodies = []func(){
+		func() { r0, e0 = bi.EvaluateBatch(q0) },
+		func() { r1, e1 = bi.EvaluateBatch(q1) },
+	}
+	in.check = func() (string, error) {
+		if e0 != nil || e1 != nil {
+			return "", fmt.Errorf("EvaluateBatch failed: %v %v", e0, e1)
+		}
+		for i, x := range []struct {
+			p pair
+			r []byte
+		}{{p0, r0}, {p1, r1}} {
+			es, err := batched.UnmarshalBatchedTokenResponses(x.r)
+			if err != nil || len(es) != 2 {
+				return "", fmt.Errorf("batch response %d does not decode to two entries: %v", i, err)
+			}
+			if len(es[0]) != 0 {
+				return "", fmt.Errorf("batch %d: the refused request has a present entry", i)
+			}
+			t2, err := x.p.s2.FinalizeToken(es[1])
+			if err != nil {
+				return "", fmt.Errorf("batch %d type-2 entry behind a refused request does not finalize: %v", i, err)
+			}
+			if err := px.VerifyRSAToken(&ref2.Key.PublicKey, t2.Marshal()); err != nil {
+				return "", fmt.Errorf("batch %d type-2 token invalid: %v", i, err)
+			}
+		}
+		return "ok", nil
+	}
+	return in
+}
+
 func batchScenario() instance {
 	kb := px.OPRFKeyBytes(oprf.SuiteP384, 0)
 	ref1 := px.NewW1FromBytes(kb)
@@ -1219,6 +1281,7 @@ var scenarios = []scenario{
 	{"type2-evaluate-evaluate-tokenkeyid-on-an-issuer-with-a-history", t2ScenarioHist},
 	{"ecdsa-two-blinding-keys-two-contexts", ecdsaScenario(2)},
 	{"ecdsa-sign-on-three-curves", ecdsaCurvesScenario},
+	{"batch-evaluatebatch-evaluatebatch-each-with-a-refused-request", batchRefusedScenario},
 	{"type1-one-evaluate-in-flight-while-eight-more-are-served", t1ManyScenario},
 	{"type3-evaluate-registered-origin-and-two-other-spellings", t3SpellingsScenario},
 	{"ed25519-one-blinding-key-shared-by-three-calls", ed25519Scenario(4)},
